@@ -602,6 +602,24 @@ def check_C16(ctx):
             elif o[1:] != last:
                 ctx.violation('LastDebugErr at step %d is %s, the latest Process left %s' % (k, o[1:], last), [h])
                 break
+    # input objects that contain themselves (no model counterpart): every call returns, the diagnostic's text can be produced, nothing is written
+    cyc = CaseSet()
+    for k_ in range(6):
+        cyc.simple('cyclic', str(k_), 'cyclic-object', scenario=k_)
+    cres = ctx.run(cyc, label='cyc', nshards=len(cyc.cases), sides=('impl',), timeout=300)
+    for c in cyc.cases:
+        io = cres.impl.get(c.id)
+        if io is None:
+            ctx.violation('the process was killed while evaluating rules on an object that contains itself (scenario %d of driver/cyclic.go)' % c.meta['scenario'], [c])
+            continue
+        for i_, o_ in enumerate((io.get('out') or '').split(';')):
+            f_ = o_.split(',')
+            if len(f_) != 6 or f_[5] != '0' or 'panic' in f_[3] or 'empty' in f_[3] or (f_[1] != 'none' and f_[0] != '0'):
+                ctx.violation('on an object that contains itself (scenario %d, rule %d of driver/cyclic.go): %s' % (c.meta['scenario'], i_, o_), [c], impl=io)
+                break
+        if io.get('frame') != '1':
+            ctx.violation('an object that contains itself was modified (scenario %d of driver/cyclic.go)' % c.meta['scenario'], [c], impl=io)
+    ctx.crashes = [cr for cr in ctx.crashes if not (cr[0] == 'impl' and cr[4] in cyc.by_id)]
     spec_violations(ctx, 'LastDebugErr')
     for c in cs.cases:
         io = res.impl.get(c.id)
@@ -1472,6 +1490,24 @@ def check_C13(ctx):
         io = res.impl.get(c.id)
         if c.kind in ('eval', 'evals') and io and io.get('frame') != '1':
             ctx.violation('the input object was modified by the call', [c], impl=io)
+    # input objects that contain themselves (no model counterpart): every call returns, the diagnostic's text can be produced, nothing is written
+    cyc = CaseSet()
+    for k_ in range(6):
+        cyc.simple('cyclic', str(k_), 'cyclic-object', scenario=k_)
+    cres = ctx.run(cyc, label='cyc', nshards=len(cyc.cases), sides=('impl',), timeout=300)
+    for c in cyc.cases:
+        io = cres.impl.get(c.id)
+        if io is None:
+            ctx.violation('the process was killed while evaluating rules on an object that contains itself (scenario %d of driver/cyclic.go)' % c.meta['scenario'], [c])
+            continue
+        for i_, o_ in enumerate((io.get('out') or '').split(';')):
+            f_ = o_.split(',')
+            if len(f_) != 6 or f_[5] != '0' or 'panic' in f_[3] or 'empty' in f_[3] or (f_[1] != 'none' and f_[0] != '0'):
+                ctx.violation('on an object that contains itself (scenario %d, rule %d of driver/cyclic.go): %s' % (c.meta['scenario'], i_, o_), [c], impl=io)
+                break
+        if io.get('frame') != '1':
+            ctx.violation('an object that contains itself was modified (scenario %d of driver/cyclic.go)' % c.meta['scenario'], [c], impl=io)
+    ctx.crashes = [cr for cr in ctx.crashes if not (cr[0] == 'impl' and cr[4] in cyc.by_id)]
     ctx.extra['not_modelled'] = 'aliasing through values retained by a diagnostic (kept, never written)'
     spread_samples(ctx, cs, res)
 
